@@ -477,7 +477,17 @@ func (r *runner) apply(w *world, st Step) (M, bool) {
 		if h == nil || h.sqe.Submission.Kind != t_aio.Router {
 			return nil, false
 		}
-		cqe := w.router.Process([]*bus.SQE[t_aio.Submission, t_aio.Completion]{h.sqe})[0]
+		var cqe *bus.CQE[t_aio.Submission, t_aio.Completion]
+		var routerPanic any
+		func() {
+			defer func() { routerPanic = recover() }()
+			cqe = w.router.Process([]*bus.SQE[t_aio.Submission, t_aio.Completion]{h.sqe})[0]
+		}()
+		if routerPanic != nil {
+			// in production this is the router worker goroutine: the process dies
+			return M{"what": "the router worker panicked on a stored promise (the server process would die)", "property": "C13", "diff": fmt.Sprint(routerPanic),
+				"promise": canon.Promise(h.sqe.Submission.Router.Promise), "property_violation": true, "step": st}, false
+		}
 		w.aio.remove(st.Tid, st.Seq)
 		w.aio.EnqueueCQE(cqe)
 		var cpl M
@@ -790,6 +800,7 @@ func main() {
 	corpus := flag.String("corpus", "", "directory of recorded scripts to run first")
 	out := flag.String("out", "", "summary JSON path")
 	mon := flag.String("monitor", "", "comma-separated property ids whose monitors run on the implementation dumps")
+	hostile := flag.Bool("hostile", false, "extend the generator pools with hostile values (markup in ids, unclosed templates, JSON literals as routing tags)")
 	knownFlag := flag.String("known", "", "comma-separated known-finding keys the response monitors tolerate (counted, not raised)")
 	flag.BoolVar(&forcePanics, "force", false, "execute predicted panics against the implementation (the process is expected to die)")
 	flag.Parse()
@@ -799,6 +810,9 @@ func main() {
 		if m != "" {
 			monitors[m] = true
 		}
+	}
+	if *hostile {
+		gen.Hostile()
 	}
 	for _, k := range strings.Split(*knownFlag, ",") {
 		if k != "" {
